@@ -277,10 +277,14 @@ def build_runner(comp, extract_v, timeout=900):
         shutil.rmtree(tmpd, ignore_errors=True)
         if rc != 0:
             return None, log
-        rc, out = sh("ocamlfind ocamlopt -O3 -w -a model.mli model.ml wvio.ml driver.ml -o runner 2>&1 || ocamlfind ocamlopt -w -a model.mli model.ml wvio.ml driver.ml -o runner", cwd=d, timeout=timeout)
+        # build under a private name and rename: a check of another tier / another
+        # process may be executing the old binary at this very moment
+        tmpbin = "runner.new.%d" % os.getpid()
+        rc, out = sh("ocamlfind ocamlopt -O3 -w -a model.mli model.ml wvio.ml driver.ml -o %s 2>&1 || ocamlfind ocamlopt -w -a model.mli model.ml wvio.ml driver.ml -o %s" % (tmpbin, tmpbin), cwd=d, timeout=timeout)
         log += out
-        if rc != 0 or not os.path.exists(runner):
+        if rc != 0 or not os.path.exists(os.path.join(d, tmpbin)):
             return None, log
+        os.replace(os.path.join(d, tmpbin), runner)
         open(stamp, "w").write(h.hexdigest())
         return runner, log
 
